@@ -175,7 +175,7 @@ def nontrivial_code(code):
     return len(lt) >= 4 or any(b[i] in JUMPS for i in range(0, len(b), 2))
 
 
-def drive(shard, prop, on_decoded, label, depth0_only=False, sample_every=1):
+def drive(shard, prop, on_decoded, label, depth0_only=False, sample_every=1, variants=0):
     """Install a post-condition on _code_data.to_code_data and drive the shard's corpus.
 
     on_decoded(code, cd, case, report) is called for every successful decode (every nesting
@@ -214,6 +214,31 @@ def drive(shard, prop, on_decoded, label, depth0_only=False, sample_every=1):
             cdm.CodeData.from_code(code)
         except Exception:
             pass
+        if variants:
+            # W11: hand-made layouts the compiler does not emit but CPython reads unambiguously
+            import reassemble
+            import sym
+            rng = H.rng_for(shard.get("seed", 0), "w11", id_)
+            subs = [c for c, _d in H.iter_code(code) if 4 <= len(c.co_code) <= 6000]
+            for c in (subs if len(subs) <= variants else rng.sample(subs, variants)):
+                try:
+                    v, desc = reassemble.variant(c, rng, reassemble.random_ops(rng) | set(["perm_consts"] if rng.random() < 0.5 else ["ext_jumps"]))
+                except Exception as e:
+                    H.count("variant_builder_error:" + type(e).__name__)
+                    continue
+                if v is None:
+                    continue
+                if sym.symbolic(v)["instrs"] != sym.symbolic(c)["instrs"]:
+                    H.count("unfaithful_variant_discarded")
+                    continue
+                H.count("w11_variants")
+                for part in desc.split("+"):
+                    H.feature("variant:" + part)
+                state["case"] = dict(corpus.replay_case(case), w11_variant=desc, w11_code=c.co_name, w11_line=c.co_firstlineno)
+                try:
+                    cdm.CodeData.from_code(v)
+                except Exception as e:
+                    H.count("variant_decode_raised:" + type(e).__name__)
         if H._counters.get("cases", 0) <= 3:
             H.sample({"id": id_, "source_head": H.short(text if isinstance(text, str) else text.decode("utf-8", "replace"), 160)})
     return mon
